@@ -177,7 +177,7 @@ func c33Short(s string) string {
 func TestVerifC33(t *testing.T) {
 	rep := vfNewReport("C33", "generated histories on real single-node stores (foreign keys on or off): write requests, foreign-key-sensitive statements (dangling child rows, cascading deletes), snapshots with/without log truncation, loads; then shutdown with or without snapshot-on-close, a generated peers file (same node at a new address; sometimes extra voters) and reopen; a second round continues on the recovered node; every history performs at least one recovery; distinct by history text")
 	defer rep.Write()
-	r := vfNewRng(33)
+	r := ssmRng(33)
 	n := vfScale(5, 60)
 	var allOps, allImpl [][]string
 	for h := 0; h < n; h++ {
